@@ -9,6 +9,13 @@ package c20
 // process life time only).
 
 import (
+	"crypto/ecdsa"
+	"crypto/elliptic"
+	crand "crypto/rand"
+	"crypto/x509"
+	"crypto/x509/pkix"
+	"encoding/pem"
+	"math/big"
 	"fmt"
 	"net"
 	"os"
@@ -155,6 +162,21 @@ func scenOptGrid(st *ekit.Stats, tier string) {
 	}
 	cases = append(cases, optCase{name: "control:tcp", args: []string{"--pull", "--connect-local", "@P"}, net: "tcp", control: true})
 	cases = append(cases, optCase{name: "control:tls-insecure", args: []string{"--pull", "--connect", "tls+@A", "--insecure"}, net: "tcp", control: true})
+	// several addresses of different kinds in one invocation: what one address needs (a TLS
+	// configuration) is no business of the next
+	if pemFile, err := selfSignedPEM(); err == nil {
+		defer os.Remove(pemFile)
+		second := sockPath("second-bind")
+		defer os.Remove(second)
+		cases = append(cases,
+			optCase{name: "control:bind-tls-then-connect-ipc", args: []string{"--pull", "--bind", "tls+tcp://127.0.0.1:0", "--cert", pemFile, "--connect", "@A"}, control: true},
+			optCase{name: "control:bind-wss-then-connect-tcp", args: []string{"--pull", "--bind", "wss://127.0.0.1:0/x", "--cert", pemFile, "--connect-local", "@P"}, net: "tcp", control: true},
+			optCase{name: "control:bind-tls-bind-ipc-connect-ipc", args: []string{"--pull", "--bind", "tls+tcp://127.0.0.1:0", "--cert", pemFile, "--bind", "ipc://" + second, "--connect", "@A"}, control: true},
+			optCase{name: "control:bind-ipc-bind-tls-connect-tcp", args: []string{"--sub", "--bind", "ipc://" + second + "2", "--bind", "tls+tcp://127.0.0.1:0", "-E", pemFile, "--connect-local", "@P"}, net: "tcp", control: true},
+		)
+	} else {
+		nt.add("no self-signed certificate could be made: " + err.Error())
+	}
 
 	// no protocol
 	add(true, "no-protocol:connect", "--connect", "@A", "--data", "x")
@@ -336,7 +358,39 @@ func scenOptGrid(st *ekit.Stats, tier string) {
 	finishNotes(st, &nt, "parse-level rejections are observed with a plain listener behind --connect (no connection = did not run); invalid values (not 'conflicting or missing') are only counted")
 }
 
+// selfSignedPEM writes a self-signed certificate and its key into one PEM file.
+func selfSignedPEM() (string, error) {
+	key, err := ecdsa.GenerateKey(elliptic.P256(), crand.Reader)
+	if err != nil {
+		return "", err
+	}
+	tmpl := &x509.Certificate{SerialNumber: big.NewInt(20), Subject: pkix.Name{CommonName: "127.0.0.1"},
+		NotBefore: time.Now().Add(-time.Hour), NotAfter: time.Now().Add(24 * time.Hour),
+		KeyUsage: x509.KeyUsageDigitalSignature | x509.KeyUsageCertSign, ExtKeyUsage: []x509.ExtKeyUsage{x509.ExtKeyUsageServerAuth},
+		IPAddresses: []net.IP{net.ParseIP("127.0.0.1")}, BasicConstraintsValid: true, IsCA: true}
+	der, err := x509.CreateCertificate(crand.Reader, tmpl, tmpl, &key.PublicKey, key)
+	if err != nil {
+		return "", err
+	}
+	kb, err := x509.MarshalECPrivateKey(key)
+	if err != nil {
+		return "", err
+	}
+	path := sockPath("selfsigned") + ".pem"
+	out := append(pem.EncodeToMemory(&pem.Block{Type: "CERTIFICATE", Bytes: der}), pem.EncodeToMemory(&pem.Block{Type: "EC PRIVATE KEY", Bytes: kb})...)
+	return path, os.WriteFile(path, out, 0o600)
+}
+
 // ---- durations
+
+func atoi(s string) int { n, _ := strconv.Atoi(s); return n }
+
+func max1(n int) int {
+	if n < 1 {
+		return 1
+	}
+	return n
+}
 
 func lifeOf(p *proc) (time.Duration, bool) {
 	if !p.waitExit(watchdog + 10*time.Second) {
@@ -393,7 +447,18 @@ func scenDurations(st *ekit.Stats, tier string) {
 		{"send-interval:bus:count2", plain(func(p, v string) []string {
 			return []string{"--bus", "--bind", "ipc://" + p, "--data", "x", "--send-interval=" + v, "--count", "2"}
 		})},
+		// every gap is the interval, not only the first: n messages take (n-1) intervals
+		{"send-interval:pub:count4", plain(func(p, v string) []string {
+			return []string{"--pub", "--bind", "ipc://" + p, "--data", "x", "--send-interval", v, "--count", "4"}
+		})},
+		{"send-interval:push:count3", plain(func(p, v string) []string {
+			return []string{"--push", "--bind", "ipc://" + p, "--data", "x", "-i", v, "--count", "3", "--send-timeout", "20"}
+		})},
+		{"send-interval:bus:count3", plain(func(p, v string) []string {
+			return []string{"--bus", "--bind", "ipc://" + p, "--data", "x", "--send-interval=" + v, "--count", "3"}
+		})},
 	}
+	gaps := map[string]int{"send-interval:pub:count4": 3, "send-interval:push:count3": 2, "send-interval:bus:count3": 2}
 	var jobs []func()
 	for mi, m := range makers {
 		mvals := vals
@@ -408,6 +473,9 @@ func scenDurations(st *ekit.Stats, tier string) {
 			m, v := m, v
 			jobs = append(jobs, func() {
 				secs, _ := strconv.Atoi(v)
+				if g := gaps[m.name]; g > 0 {
+					secs *= g
+				}
 				check := func() (string, string, bool) {
 					life, hung, args, herr, info := m.run(v)
 					in := "macat " + shq(args)
@@ -418,7 +486,7 @@ func scenDurations(st *ekit.Stats, tier string) {
 						return fmt.Sprintf("did not exit within %v", watchdog+10*time.Second), in, true
 					}
 					if life < time.Duration(secs)*time.Second {
-						return fmt.Sprintf("process lived only %v, %s second(s) were requested (%s)", life.Round(time.Millisecond), v, info), in, false
+						return fmt.Sprintf("process lived only %v, %s second(s) were requested, %d time(s) (%s)", life.Round(time.Millisecond), v, secs/max1(atoi(v)), info), in, false
 					}
 					return "", in, false
 				}
